@@ -126,7 +126,14 @@ def rule_U3(ctx):
         for n in ast.walk(fi.node):
             if isinstance(n, ast.Attribute) and isinstance(n.ctx, (ast.Store, ast.Del)) and n.attr in ("_alpha", "log_alpha"):
                 writers.append((fi, n))
-    others = [(fi, n) for fi, n in writers if fi is not setter]
+    # a private helper of the same class that only the setter calls is part of the setter
+    def _setter_helper(fi):
+        if fi.cls is None or setter.cls is None or fi.cls is not setter.cls or not fi.name.startswith("_") or fi.name.startswith("__"):
+            return False
+        callers = [m for m in prog.functions.values() if m is not fi and any(isinstance(c, ast.Call) and isinstance(c.func, ast.Attribute) and c.func.attr == fi.name for c in ast.walk(m.node))]
+        return bool(callers) and all(m is setter for m in callers)
+
+    others = [(fi, n) for fi, n in writers if fi is not setter and not _setter_helper(fi)]
     ctx.check(not others, "U3", "only the alpha setter writes _alpha / log_alpha", setter.where(), "also written in %s" % ", ".join("%s (%s)" % (fi.qualname, u(n)) for fi, n in others), construct=(others[0][0].qualname if others else setter.qualname), stmt="single writer")
     # the densities read the refreshed logarithm (not a stale copy)
     crp = prog.fn("FSCRPDistribution._alpha_and_CRP_prior_log_p_compute")
